@@ -399,6 +399,12 @@ Proof.
     injection E0 as ->. apply (by_name_d_some_not_hidden _ _ B2).
 Qed.
 
+Lemma call_all_inv : forall vs st, Inv d st -> Inv d (call_all st vs).
+Proof.
+  unfold call_all. induction vs as [|v vs IH]; intros st HI; cbn [fold_left]; [assumption|].
+  apply IH. apply call_inv_state. assumption.
+Qed.
+
 (* conversion of a name, when allowed *)
 Lemma call_name_inv : forall st s strict, Inv d st -> allowed d (OpCallName s strict) = true ->
   fst (call_name st s strict) = st /\ abstract (snd (call_name st s strict)) = spec_name d s.
@@ -467,6 +473,8 @@ Proof.
   - cbn. rewrite (iter_inv st HI). auto.
   - cbn. unfold len. rewrite (iter_inv st HI). auto.
   - cbn. rewrite (reversed_inv st HI). auto.
+  - cbn. pose proof (call_all_inv vs st HI) as H1. rewrite (iter_inv _ H1). auto.
+  - cbn. rewrite (reversed_inv st HI). split; [apply call_all_inv; assumption | reflexivity].
 Qed.
 
 (* histories *)
